@@ -1489,19 +1489,13 @@ class AsType(Elemwise):
                     return True
         return False
 
-    def _filter_simplification(self, parent, predicate=None):
-        if predicate is None and self._reads_cast_columns(parent.predicate):
-            # the predicate has to be evaluated on the cast values: filter
-            # the frame with the predicate as it is (same rows, same order)
-            return type(self)(
-                Filter(self.frame, parent.predicate), *self.operands[1:]
-            )
-        return super()._filter_simplification(parent, predicate)
-
     def _simplify_up(self, parent, dependents):
         if isinstance(parent, Filter) and self._filter_passthrough_available(
             parent, dependents
         ):
+            if self._reads_cast_columns(parent.predicate):
+                # the predicate has to be evaluated on the cast values
+                return
             return self._filter_simplification(parent)
         if isinstance(parent, Projection):
             dtypes = self.operand("dtypes")
